@@ -343,3 +343,66 @@ def const_of(e: Optional[ast.AST], default=None):
         return ast.literal_eval(e)
     except Exception:
         return ...
+
+
+def product_factors(e: ast.AST) -> Tuple[int, List[ast.AST]]:
+    """Flatten a product/quotient tree: (sign from unary minus, list of factor nodes — divisors included)."""
+    sign = 1
+    out: List[ast.AST] = []
+    work = [e]
+    while work:
+        x = work.pop()
+        if isinstance(x, ast.UnaryOp) and isinstance(x.op, ast.USub):
+            sign = -sign
+            work.append(x.operand)
+        elif isinstance(x, ast.UnaryOp) and isinstance(x.op, ast.UAdd):
+            work.append(x.operand)
+        elif isinstance(x, ast.BinOp) and isinstance(x.op, (ast.Mult, ast.Div, ast.MatMult)):
+            work.append(x.left)
+            work.append(x.right)
+        else:
+            out.append(x)
+    return sign, out
+
+
+def imag_unit_sign(e: ast.AST) -> Optional[int]:
+    """Sign (±1) of the imaginary unit in a product such as `-2j * np.pi * x` or `1j * a * b`; None unless the product
+    contains exactly one imaginary literal (other numeric literals contribute their sign; symbols count as positive)."""
+    sign, fs = product_factors(e)
+    n_imag = 0
+    for f in fs:
+        if isinstance(f, ast.Constant) and isinstance(f.value, complex):
+            if f.value.real != 0 or f.value.imag == 0:
+                return None
+            n_imag += 1
+            sign *= 1 if f.value.imag > 0 else -1
+        elif isinstance(f, ast.Constant) and isinstance(f.value, (int, float)) and not isinstance(f.value, bool):
+            if f.value == 0:
+                return None
+            sign *= 1 if f.value > 0 else -1
+    return sign if n_imag == 1 else None
+
+
+def if_chain(top: ast.If) -> List[Tuple[Optional[ast.AST], List[ast.stmt]]]:
+    """[(test, body), …, (None, else-body)] of an if/elif/else chain."""
+    chain = []
+    cur = top
+    while True:
+        chain.append((cur.test, cur.body))
+        if len(cur.orelse) == 1 and isinstance(cur.orelse[0], ast.If):
+            cur = cur.orelse[0]
+        else:
+            chain.append((None, cur.orelse))
+            break
+    return chain
+
+
+def eq_const(test: ast.AST, lhs: str):
+    """Value c if `test` is `<lhs> == c` (either side) with a literal c, else Ellipsis."""
+    if isinstance(test, ast.Compare) and len(test.ops) == 1 and isinstance(test.ops[0], ast.Eq):
+        a, b = test.left, test.comparators[0]
+        if norm(a) == lhs and isinstance(b, ast.Constant):
+            return b.value
+        if norm(b) == lhs and isinstance(a, ast.Constant):
+            return a.value
+    return ...
